@@ -14,21 +14,48 @@ TABLES = ["t", "tbl", "my_table", "s.t2"]
 def sql_expr(rng, depth=0):
     r = rng.random()
     if depth > 2 or r < 0.35:
-        return rng.choice(COLS + ["1", "'s'", "NULL", "t.a", "*"])
+        return rng.choice(COLS + ["1", "'s'", "NULL", "t.a"] + (["*"] if depth == 0 else []))
     if r < 0.55:
-        return "%s%s%s%s%s" % (sql_expr(rng, depth + 1), rng.choice(["", " ", "  "]), rng.choice(["+", "-", "=", "<>", "!=", "||", "and", "OR"]),
-                               rng.choice(["", " ", "  "]) if r < 0.5 else " ", sql_expr(rng, depth + 1))
+        op = rng.choice(["+", "-", "=", "<>", "!=", "||", " and ", " OR ", " AND "])
+        if op.strip().isalpha():
+            return "%s%s%s" % (sql_expr(rng, depth + 1), op, sql_expr(rng, depth + 1))
+        return "%s%s%s%s%s" % (sql_expr(rng, depth + 1), rng.choice(["", " ", "  "]), op, rng.choice(["", " ", "  "]), sql_expr(rng, depth + 1))
     if r < 0.7:
         return "%s(%s%s)" % (rng.choice(["count", "SUM", "coalesce", "Max"]), rng.choice(["", " "]), sql_expr(rng, depth + 1))
     if r < 0.8:
         return "(%s)" % sql_expr(rng, depth + 1)
-    if r < 0.9:
+    if r < 0.86:
         return "CASE WHEN %s THEN %s ELSE %s END" % (sql_expr(rng, depth + 1), sql_expr(rng, depth + 1), sql_expr(rng, depth + 1))
-    return "%s %s %s" % (sql_expr(rng, depth + 1), rng.choice(["as", "AS", ""]), rng.choice(["c1", "alias_x"]))
+    if r < 0.9:
+        return rng.choice(["row_number() over (partition by a order by b)", "cast(a as int)", "a in (1, 2,3)", "a between 1 and 2",
+                           "exists (select 1 from t)", "a is not null", "not a", "-a", "a::int", "(select max(b) from t)"])
+    if depth == 0:
+        return "%s %s %s" % (sql_expr(rng, depth + 1), rng.choice(["as", "AS", ""]), rng.choice(["c1", "alias_x"]))
+    return rng.choice(COLS)
 
 
 def ws(rng):
     return rng.choice([" ", " ", " ", "  ", "\n", "\n    ", "\t", " \n"])
+
+
+def from_expr(rng, kw, depth=0):
+    """A from-expression: tables, aliases, joins, bracketed join groups, sub-selects."""
+    def table():
+        r = rng.random()
+        if r < 0.6 or depth > 1:
+            return rng.choice(TABLES) + rng.choice(["", "", " t1", " AS t2"])
+        if r < 0.8:
+            return "(" + sql_select(rng, depth + 2) + ")" + rng.choice([" AS sq", " sq"])
+        return "(" + from_expr(rng, kw, depth + 1) + ")"
+    out = table()
+    while rng.random() < 0.35:
+        jt = rng.choice(["join", "inner join", "left join", "LEFT OUTER JOIN", "cross join", "full join"])
+        out += ws(rng) + kw(jt) + " " + table()
+        if "cross" not in jt.lower():
+            out += " " + rng.choice([kw("on") + " a.x = b.x", kw("on") + " t1.a=t2.a and t1.b = 1", kw("using") + " (a)", kw("on") + " (a.x = b.x)"])
+    if rng.random() < 0.1:
+        out += ", " + table()
+    return out
 
 
 def sql_select(rng, depth=0):
@@ -36,16 +63,20 @@ def sql_select(rng, depth=0):
     kw = rng.choice([str.upper, str.lower, str.capitalize, str.upper])
     items = [sql_expr(rng) for _ in range(rng.randint(1, 4))]
     sep = rng.choice([",", ", ", " ,", ",\n    ", "\n    , "])
-    out = kw("select") + ws(rng) + sep.join(items)
-    out += ws(rng) + kw("from") + ws(rng) + rng.choice(TABLES)
+    out = kw("select") + rng.choice(["", "", " distinct", " ALL"]) + ws(rng) + sep.join(items)
+    out += ws(rng) + kw("from") + ws(rng) + from_expr(rng, kw, depth)
     if rng.random() < 0.3 and depth < 1:
         out += ws(rng) + kw("join") + " (" + sql_select(rng, depth + 1) + ") " + rng.choice(["AS j", "j"]) + " " + kw("on") + " " + sql_expr(rng)
     if rng.random() < 0.5:
         out += ws(rng) + kw("where") + ws(rng) + sql_expr(rng)
     if rng.random() < 0.25:
         out += ws(rng) + kw("group by") + " " + rng.choice(COLS) + rng.choice(["", ", 2"])
+    if rng.random() < 0.15:
+        out += ws(rng) + kw("having") + " " + rng.choice(["count(*) > 1", "sum(a)>0"])
     if rng.random() < 0.25:
         out += ws(rng) + kw("order by") + " " + rng.choice(COLS) + rng.choice(["", " desc", " ASC"])
+    if rng.random() < 0.15:
+        out += ws(rng) + kw("limit") + " " + rng.choice(["1", "10 offset 5"])
     if rng.random() < 0.15 and depth < 1:
         out += ws(rng) + kw("union") + rng.choice(["", " all", " DISTINCT"]) + ws(rng) + sql_select(rng, depth + 1)
     return out
